@@ -32,10 +32,15 @@ def gen(rng, tier, n):
             # one Validate call that reaches one $dynamicRef through several dynamic scopes (sibling properties, ranged in random order)
             o = c06.fork(rng) if rng.random() < 0.4 else c06.topo(rng)
             ops.append({"op": "purity", "args": {"schema": o["args"]["schema"], "docs": o["args"]["docs"], "base": o["args"]["base"],
-                                                  "insts": o["args"]["insts"][-8:]}, "meta": {"kw": 5, "dynamic": True}})
+                                                  "insts": rng.sample(o["args"]["insts"], min(10, len(o["args"]["insts"])))},
+                        "meta": {"kw": 5, "dynamic": True}})
             continue
         if r0 < 0.2:
             # Marshal on Schema values (PropertyOrder with names that are not properties, nested schemas, Extra): bytes stable, value untouched
+            if rng.random() < 0.25:
+                o = c19.alias_case(rng, rng.sample(c19.NAMES, rng.randint(2, 4)))
+                ops.append({"op": "marshal", "args": {"desc": o["args"]["desc"], "insts": []}, "meta": {"kw": 3, "marshal": True, "alias": True}})
+                continue
             if rng.random() < 0.5:
                 props = rng.sample(c19.NAMES, rng.randint(0, 4))
                 order = [rng.choice(props + ["zz", "q", "stale", "gone"]) for _ in range(rng.randint(0, 6))]
